@@ -60,7 +60,11 @@ def scenario(e, cfg):
     nxt = 0
     expected = {"train": [], "test": []}
     with common.scratch_dir("vt08_") as tmp:
-        d = fillerlab.make_dataset(tmp / "ds", eps=(E if concrete else cfg.get("eps", 2)))
+        # datasets may be configured without any checksum algorithm: nothing may depend on checksums to notice new data
+        nc = e.fresh_int("no_checksums", 0, 1)
+        if not concrete:
+            e.assume(nc == int(bool(cfg.get("no_checksums"))))
+        d = fillerlab.make_dataset(tmp / "ds", eps=(E if concrete else cfg.get("eps", 2)), hashes=(() if int(nc) else ("md5",)))
         hist = []
         # the caller may construct all its fillers up-front and use them one after the other (write_multiprocessing does)
         prebuild = bool(cfg["sessions"] > 1 and e.choice("fillers_constructed_up_front", 2))
@@ -182,9 +186,11 @@ def _cell(cell):
 
 def cells(tier):
     if tier == "quick":
-        return [dict(sessions=2, kind0=k, nchoices=2) for k in range(len(KINDS))] + [dict(sessions=1, nchoices=2, spellings=True)]
+        return ([dict(sessions=2, kind0=k, nchoices=2) for k in range(len(KINDS))] + [dict(sessions=1, nchoices=2, spellings=True)] +
+                [dict(sessions=2, kind0=k, nchoices=1, no_checksums=True) for k in range(len(KINDS))])
     return ([dict(sessions=3, kind0=k, nchoices=1) for k in range(len(KINDS))] +
-            [dict(sessions=2, kind0=k, nchoices=2) for k in range(len(KINDS))] + [dict(sessions=1, nchoices=2, spellings=True)])
+            [dict(sessions=2, kind0=k, nchoices=2) for k in range(len(KINDS))] + [dict(sessions=1, nchoices=2, spellings=True)] +
+            [dict(sessions=3, kind0=k, nchoices=1, no_checksums=True) for k in range(len(KINDS))])
 
 
 def collect(st, prop):
